@@ -191,6 +191,16 @@ theorem collectGo_none : ∀ (pending acc : List Line) (ln : Int), (∀ l ∈ pe
     simp [collectGo, h l (by simp), collectGo_none t (l :: acc) (ln + 1) (fun x hx => h x (by simp [hx]))]
 
 
+theorem natDigits_length_le (n k : Nat) (hk : 0 < k) (h : n < 10 ^ k) : (natDigits n).length ≤ k := by
+  have := (Nat.length_toDigits_le_iff (b := 10) (n := n) (by omega) hk).mpr h
+  simpa [natDigits, toString, Nat.repr] using this
+
+theorem rjust_length (w : Nat) (s : Line) (h : s.length ≤ w) : (rjust w s).length = w := by
+  simp [rjust]; omega
+
+theorem strip_space_cons (l : Line) : strip (' ' :: l) = strip l := by
+  simp [strip, lstrip, isWs]
+
 /-! ### pdb.load_one's loop over the blocks of a written frame -/
 
 section pdb
@@ -232,6 +242,354 @@ theorem pdbGo_conects (hb : ∀ b, pb (pCONECT ++ fb b) = some b) :
     simp [pdbGo, pATOM, pHETATM, pCONECT, pTITLE, pCOMPND, startsWith, h]
     simpa [pCONECT] using ih
 
+
+/-- continuation record `TITLE` + `str(i+2).rjust(5)` + `' '` + text: the reader's `line[10:].strip()` gives the text -/
+theorem pdbGo_title_cont (i : Nat) (hi : i + 2 < 100000) (l : Line) (t : List Line) (ln : Int) (acc : PdbFrame α β)
+    (found : Bool) :
+    pdbGo pa pb ((pTITLE ++ rjust (10 - pTITLE.length) (natDigits (i + 2)) ++ [' '] ++ l) :: t) ln acc found =
+      pdbGo pa pb t (ln + 1) { acc with titles := acc.titles ++ [strip l] } found := by
+  have hlen := rjust_length 5 (natDigits (i + 2)) (natDigits_length_le _ 5 (by omega) (by omega))
+  obtain ⟨c1, c2, c3, c4, c5, hr⟩ : ∃ c1 c2 c3 c4 c5, rjust 5 (natDigits (i + 2)) = [c1, c2, c3, c4, c5] := by
+    match h : rjust 5 (natDigits (i + 2)), hlen with
+    | [c1, c2, c3, c4, c5], _ => exact ⟨c1, c2, c3, c4, c5, rfl⟩
+  have h5 : 10 - pTITLE.length = 5 := by decide
+  rw [h5, hr]
+  simp [pdbGo, pTITLE, startsWith, strip_space_cons]
+
+theorem pdbGo_compnd_cont (i : Nat) (hi : i + 2 < 10000) (l : Line) (t : List Line) (ln : Int) (acc : PdbFrame α β)
+    (found : Bool) :
+    pdbGo pa pb ((pCOMPND ++ rjust (10 - pCOMPND.length) (natDigits (i + 2)) ++ [' '] ++ l) :: t) ln acc found =
+      pdbGo pa pb t (ln + 1) { acc with compnd := acc.compnd ++ [strip l] } found := by
+  have hlen := rjust_length 4 (natDigits (i + 2)) (natDigits_length_le _ 4 (by omega) (by omega))
+  obtain ⟨c1, c2, c3, c4, hr⟩ : ∃ c1 c2 c3 c4, rjust 4 (natDigits (i + 2)) = [c1, c2, c3, c4] := by
+    match h : rjust 4 (natDigits (i + 2)), hlen with
+    | [c1, c2, c3, c4], _ => exact ⟨c1, c2, c3, c4, rfl⟩
+  have h5 : 10 - pCOMPND.length = 4 := by decide
+  rw [h5, hr]
+  simp [pdbGo, pTITLE, pCOMPND, startsWith, strip_space_cons]
+
+theorem pdbGo_titleAux : ∀ (ls : List Line) (i : Nat), i + ls.length + 1 < 100000 → ∀ (t : List Line) (ln : Int)
+    (acc : PdbFrame α β) (found : Bool),
+    pdbGo pa pb (pdbMultiAux pTITLE i ls ++ t) ln acc found =
+      pdbGo pa pb t (ln + ls.length) { acc with titles := acc.titles ++ ls.map strip } found
+  | [], _, _, t, ln, acc, found => by simp [pdbMultiAux]
+  | l :: ls, i, h, t, ln, acc, found => by
+    have ih := pdbGo_titleAux ls (i + 1) (by simp at h; omega) t (ln + 1)
+      { acc with titles := acc.titles ++ [strip l] } found
+    simp only [pdbMultiAux, List.cons_append]
+    rw [pdbGo_title_cont pa pb i (by simp at h; omega), ih]
+    simp only [List.length_cons, List.map_cons, List.append_assoc, List.singleton_append]
+    congr 1; push_cast; omega
+
+theorem pdbGo_compndAux : ∀ (ls : List Line) (i : Nat), i + ls.length + 1 < 10000 → ∀ (t : List Line) (ln : Int)
+    (acc : PdbFrame α β) (found : Bool),
+    pdbGo pa pb (pdbMultiAux pCOMPND i ls ++ t) ln acc found =
+      pdbGo pa pb t (ln + ls.length) { acc with compnd := acc.compnd ++ ls.map strip } found
+  | [], _, _, t, ln, acc, found => by simp [pdbMultiAux]
+  | l :: ls, i, h, t, ln, acc, found => by
+    have ih := pdbGo_compndAux ls (i + 1) (by simp at h; omega) t (ln + 1)
+      { acc with compnd := acc.compnd ++ [strip l] } found
+    simp only [pdbMultiAux, List.cons_append]
+    rw [pdbGo_compnd_cont pa pb i (by simp at h; omega), ih]
+    simp only [List.length_cons, List.map_cons, List.append_assoc, List.singleton_append]
+    congr 1; push_cast; omega
+
+/-- `_dump_multiline_str(f, "TITLE", text)` read back: one title entry per line, stripped -/
+theorem pdbGo_multi_title (ls : List Line) (h : ls.length < 99999) (t : List Line) (ln : Int)
+    (acc : PdbFrame α β) (found : Bool) :
+    pdbGo pa pb (pdbMulti pTITLE ls ++ t) ln acc found =
+      pdbGo pa pb t (ln + ls.length) { acc with titles := acc.titles ++ ls.map strip } found := by
+  cases ls with
+  | nil => simp [pdbMulti]
+  | cons l ls =>
+    simp only [pdbMulti, List.cons_append]
+    rw [pdbGo_title, pdbGo_titleAux pa pb ls 0 (by simp at h; omega)]
+    simp only [List.length_cons, List.map_cons, List.append_assoc, List.singleton_append]
+    congr 1; push_cast; omega
+
+theorem pdbGo_multi_compnd (ls : List Line) (h : ls.length < 9999) (t : List Line) (ln : Int)
+    (acc : PdbFrame α β) (found : Bool) :
+    pdbGo pa pb (pdbMulti pCOMPND ls ++ t) ln acc found =
+      pdbGo pa pb t (ln + ls.length) { acc with compnd := acc.compnd ++ ls.map strip } found := by
+  cases ls with
+  | nil => simp [pdbMulti]
+  | cons l ls =>
+    simp only [pdbMulti, List.cons_append]
+    rw [pdbGo_compnd, pdbGo_compndAux pa pb ls 0 (by simp at h; omega)]
+    simp only [List.length_cons, List.map_cons, List.append_assoc, List.singleton_append]
+    congr 1; push_cast; omega
+
+/-- a line `pdb.load_one` passes over as long as no ATOM/HETATM record of the frame was read: anything but a TITLE,
+    COMPND, ATOM, HETATM or CONECT record (MODEL, CRYST1, REMARK, MASTER, blank lines, and also END / ENDMDL, which
+    end a frame only after an atom record) -/
+def pdbSkip (l : Line) : Bool :=
+  !startsWith pTITLE l && !startsWith pCOMPND l && !startsWith pATOM l && !startsWith pHETATM l &&
+    !startsWith pCONECT l
+
+def pdbIsAtom (l : Line) : Bool := startsWith pATOM l || startsWith pHETATM l
+
+theorem pdbGo_skips : ∀ (sk : List Line), (∀ l ∈ sk, pdbSkip l = true) → ∀ (t : List Line) (ln : Int)
+    (acc : PdbFrame α β), pdbGo pa pb (sk ++ t) ln acc false = pdbGo pa pb t (ln + sk.length) acc false
+  | [], _, t, ln, acc => by simp
+  | l :: sk, h, t, ln, acc => by
+    have hl := h l (by simp)
+    simp only [pdbSkip, Bool.and_eq_true, Bool.not_eq_true'] at hl
+    obtain ⟨⟨⟨⟨h1, h2⟩, h3⟩, h4⟩, h5⟩ := hl
+    have ih := pdbGo_skips sk (fun x hx => h x (by simp [hx])) t (ln + 1) acc
+    simp only [List.cons_append, pdbGo, h1, h2, h3, h4, h5, Bool.or_self, Bool.and_false, if_false, ih,
+      List.length_cons, Bool.false_eq_true]
+    congr 1; push_cast; omega
+
+theorem atom_not_title (l : Line) (h : pdbIsAtom l = true) :
+    startsWith pTITLE l = false ∧ startsWith pCOMPND l = false := by
+  cases l with
+  | nil => simp [pdbIsAtom, startsWith, pATOM, pHETATM] at h
+  | cons c t =>
+    simp [pdbIsAtom, startsWith, pATOM, pHETATM] at h
+    rcases h with ⟨rfl, _⟩ | ⟨rfl, _⟩ <;> simp [startsWith, pTITLE, pCOMPND, List.isPrefixOf]
+
+/-- a sequence of lines without any END record whose ATOM/HETATM and CONECT records all parse: `load_one` reaches
+    the end of the file; with an atom record seen it returns the data read so far with `endReached = false` (the
+    LoadWarning "END is not found"), without one it raises "Molecule could not be read" -/
+theorem pdbGo_no_end : ∀ (ls : List Line),
+    (∀ l ∈ ls, startsWith pEND l = false ∧ (pdbIsAtom l = true → (pa l).isSome = true) ∧
+      (startsWith pCONECT l = true → (pb l).isSome = true)) →
+    ∀ (ln : Int) (acc : PdbFrame α β) (found : Bool),
+      ((found || ls.any pdbIsAtom) = true → ∃ g ln', pdbGo pa pb ls ln acc found = .ok g ⟨[], ln'⟩ ∧
+        g.endReached = false) ∧
+      ((found || ls.any pdbIsAtom) = false → ∃ ln', pdbGo pa pb ls ln acc found = .raise .loadError ⟨[], ln'⟩)
+  | [], _, ln, acc, found => by
+    cases found <;> simp [pdbGo]
+  | l :: t, h, ln, acc, found => by
+    obtain ⟨he, hat, hco⟩ := h l (by simp)
+    have ht := fun x hx => h x (List.mem_cons_of_mem l hx)
+    by_cases hA : pdbIsAtom l = true
+    · obtain ⟨h1, h2⟩ := atom_not_title l hA
+      obtain ⟨a, hpa⟩ := Option.isSome_iff_exists.mp (hat hA)
+      have ih := pdbGo_no_end t ht (ln + 1) { acc with atoms := acc.atoms ++ [a] } true
+      have hA' : (startsWith pATOM l || startsWith pHETATM l) = true := hA
+      simp only [pdbGo, h1, h2, hA', hpa, if_true, if_false, List.any_cons, hA, Bool.or_true, Bool.true_or,
+        Bool.false_eq_true] at ih ⊢
+      exact ⟨fun _ => ih.1 trivial, fun h => by simp at h⟩
+    · have hA' : (startsWith pATOM l || startsWith pHETATM l) = false := by simpa [pdbIsAtom] using hA
+      have hAf : pdbIsAtom l = false := by simpa using hA
+      simp only [List.any_cons, hAf, Bool.false_or]
+      unfold pdbGo
+      split
+      · exact pdbGo_no_end t ht _ _ _
+      · split
+        · exact pdbGo_no_end t ht _ _ _
+        · simp only [hA', Bool.false_eq_true, if_false]
+          split
+          · rename_i hc
+            obtain ⟨b, hpb⟩ := Option.isSome_iff_exists.mp (hco hc)
+            simp only [hpb]
+            exact pdbGo_no_end t ht _ _ _
+          · simp only [he, Bool.false_and, Bool.false_eq_true, if_false]
+            exact pdbGo_no_end t ht _ _ _
+
+
+/-- a PDB frame as it appears in a file: lines passed over (`pre`: e.g. END/MASTER of a previous frame, CRYST1,
+    REMARK), TITLE and COMPND records with continuation numbers, more passed-over lines (`mid`: e.g. `MODEL n`), the
+    ATOM records, the CONECT records and a terminating record that starts with `END` (`END`, `ENDMDL`). -/
+structure PdbBlock (α β : Type) where
+  pre : List Line
+  tls : List Line
+  cls : List Line
+  mid : List Line
+  atoms : List α
+  conects : List β
+  endTail : Line
+
+def pdbBlockLines (b : PdbBlock α β) : List Line :=
+  b.pre ++ (pdbMulti pTITLE b.tls ++ (pdbMulti pCOMPND b.cls ++ (b.mid ++
+    (b.atoms.map (fun a => pATOM ++ [' ', ' '] ++ fa a) ++ (b.conects.map (fun c => pCONECT ++ fb c) ++
+      [pEND ++ b.endTail])))))
+
+def pdbBlockFrame (b : PdbBlock α β) : PdbFrame α β :=
+  ⟨b.tls.map strip, b.cls.map strip, b.atoms, b.conects, true⟩
+
+/-- domain of the frame law: at least one atom record (a frame without one has no record the reader recognises
+    as a frame, see `pdb_empty_frame_merged_violated`), fewer than 99 999 title and 9 999 compound lines (beyond
+    that the continuation number no longer fits its columns), `pre`/`mid` free of records the reader interprets -/
+def PdbBlockOk (b : PdbBlock α β) : Prop :=
+  b.atoms ≠ [] ∧ (∀ l ∈ b.pre, pdbSkip l = true) ∧ (∀ l ∈ b.mid, pdbSkip l = true) ∧
+    b.tls.length < 99999 ∧ b.cls.length < 9999
+
+/-- the frame `dump_one` writes -/
+def pdbBlockOfObj (o : PdbObj α β) : PdbBlock α β :=
+  ⟨[], splitNl (titleOr o.title), (match o.compnd with | none => [] | some c => splitNl c), [], o.atoms, o.conects, []⟩
+
+theorem pdbBlockLines_ofObj (o : PdbObj α β) : pdbBlockLines fa fb (pdbBlockOfObj o) = pdbDumpOne fa fb o := by
+  obtain ⟨t, c, a, b⟩ := o
+  cases c <;> simp [pdbBlockLines, pdbBlockOfObj, pdbDumpOne, pdbMulti]
+
+theorem pdbBlockFrame_ofObj (o : PdbObj α β) : pdbBlockFrame (pdbBlockOfObj o) = pdbNorm o := by
+  obtain ⟨t, c, a, b⟩ := o
+  cases c <;> simp [pdbBlockFrame, pdbBlockOfObj, pdbNorm]
+
+theorem pdbBlockLines_ne (b : PdbBlock α β) : pdbBlockLines fa fb b ≠ [] := by
+  simp [pdbBlockLines]
+
+/-- **prefix-consumption law for PDB frames** -/
+theorem pdb_block_law (ha : ∀ a, pa (pATOM ++ [' ', ' '] ++ fa a) = some a)
+    (hb : ∀ b, pb (pCONECT ++ fb b) = some b) (b : PdbBlock α β) (hok : PdbBlockOk b) (rest : List Line) (ln : Int) :
+    ∃ ln', pdbLoadOne pa pb ⟨pdbBlockLines fa fb b ++ rest, ln⟩ = .ok (pdbBlockFrame b) ⟨rest, ln'⟩ := by
+  obtain ⟨pre, tls, cls, mid, atoms, conects, e⟩ := b
+  obtain ⟨hat, hpre, hmid, htl, hcl⟩ := hok
+  simp only at hat hpre hmid htl hcl
+  have hfound : (false || !atoms.isEmpty) = true := by
+    cases atoms with
+    | nil => exact absurd rfl hat
+    | cons _ _ => rfl
+  obtain ⟨ln1, h1⟩ := pdbGo_atoms pa fa pb ha atoms
+    (conects.map (fun c => pCONECT ++ fb c) ++ ((pEND ++ e) :: rest))
+    (ln + pre.length + tls.length + cls.length + mid.length) ⟨[] ++ tls.map strip, [] ++ cls.map strip, [], [], false⟩ false
+  obtain ⟨ln2, h2⟩ := pdbGo_conects pa pb fb hb conects ((pEND ++ e) :: rest) ln1
+    ⟨[] ++ tls.map strip, [] ++ cls.map strip, [] ++ atoms, [], false⟩ (false || !atoms.isEmpty)
+  refine ⟨ln2 + 1, ?_⟩
+  have hshape : pdbBlockLines fa fb ⟨pre, tls, cls, mid, atoms, conects, e⟩ ++ rest =
+      pre ++ (pdbMulti pTITLE tls ++ (pdbMulti pCOMPND cls ++ (mid ++
+        (atoms.map (fun a => pATOM ++ [' ', ' '] ++ fa a) ++ (conects.map (fun c => pCONECT ++ fb c) ++
+          ((pEND ++ e) :: rest)))))) := by
+    simp [pdbBlockLines]
+  simp only [pdbLoadOne, hshape]
+  rw [pdbGo_skips pa pb pre hpre, pdbGo_multi_title pa pb tls htl, pdbGo_multi_compnd pa pb cls hcl,
+    pdbGo_skips pa pb mid hmid]
+  simp only [List.singleton_append] at h1 h2 ⊢
+  rw [h1, h2, hfound]
+  simp [pdbGo, pEND, pTITLE, pCOMPND, pATOM, pHETATM, pCONECT, startsWith, pdbBlockFrame]
+
+/-- lines without any ATOM/HETATM/CONECT record: "Molecule could not be read" at the end of the file -/
+theorem pdbGo_no_atoms : ∀ (t : List Line) (ln : Int) (acc : PdbFrame α β),
+    (∀ l ∈ t, startsWith pATOM l = false ∧ startsWith pHETATM l = false ∧ startsWith pCONECT l = false) →
+    ∃ ln', pdbGo pa pb t ln acc false = .raise .loadError ⟨[], ln'⟩
+  | [], ln, acc, _ => ⟨ln + 1, by simp [pdbGo]⟩
+  | l :: t, ln, acc, hl => by
+    obtain ⟨h1, h2, h3⟩ := hl l (by simp)
+    have ht := fun x hx => hl x (List.mem_cons_of_mem l hx)
+    unfold pdbGo
+    split
+    · exact pdbGo_no_atoms t _ _ ht
+    · split
+      · exact pdbGo_no_atoms t _ _ ht
+      · simp [h1, h2, h3]
+        exact pdbGo_no_atoms t _ _ ht
+
+/-- domain of the PDB round trip for written frames -/
+def PdbDom (o : PdbObj α β) : Prop :=
+  o.atoms ≠ [] ∧ (splitNl (titleOr o.title)).length < 99999 ∧ ∀ c, o.compnd = some c → (splitNl c).length < 9999
+
+theorem pdbBlockOk_ofObj (o : PdbObj α β) (h : PdbDom o) : PdbBlockOk (pdbBlockOfObj o) := by
+  obtain ⟨t, c, a, b⟩ := o
+  obtain ⟨h1, h2, h3⟩ := h
+  refine ⟨h1, by simp [pdbBlockOfObj], by simp [pdbBlockOfObj], h2, ?_⟩
+  cases c with
+  | none => simp [pdbBlockOfObj]
+  | some c => exact h3 c rfl
+
+theorem pdb_flatMap_ofObj (os : List (PdbObj α β)) :
+    (os.map pdbBlockOfObj).flatMap (pdbBlockLines fa fb) = os.flatMap (pdbDumpOne fa fb) := by
+  induction os with
+  | nil => rfl
+  | cons o os ih => simp [pdbBlockLines_ofObj, ih]
+
+theorem pdb_map_ofObj (os : List (PdbObj α β)) : (os.map pdbBlockOfObj).map pdbBlockFrame = os.map pdbNorm := by
+  induction os with
+  | nil => rfl
+  | cons o os ih => simp [pdbBlockFrame_ofObj]
+
+theorem pdb_step (ha : ∀ a, pa (pATOM ++ [' ', ' '] ++ fa a) = some a) (hb : ∀ b, pb (pCONECT ++ fb b) = some b)
+    (b : PdbBlock α β) (hok : PdbBlockOk b) (rest : List Line) (ln : Int) (first : Bool) :
+    ∃ s' ln', runPeek pdbSkel.peek first ⟨pdbBlockLines fa fb b ++ rest, ln⟩ = .go s' ∧
+      pdbLoadOne pa pb s' = .ok (pdbBlockFrame b) ⟨rest, ln'⟩ := by
+  obtain ⟨ln', hl⟩ := pdb_block_law pa fa pb fb ha hb b hok rest ln
+  exact ⟨_, ln', rfl, hl⟩
+
+theorem mem_pdbMultiAux (key l : Line) : ∀ (ls : List Line) (i : Nat), l ∈ pdbMultiAux key i ls → ∃ r, l = key ++ r
+  | [], _, h => by simp [pdbMultiAux] at h
+  | x :: ls, i, h => by
+    simp only [pdbMultiAux, List.mem_cons] at h
+    cases h with
+    | inl h => exact ⟨rjust (10 - key.length) (natDigits (i + 2)) ++ ([' '] ++ x), by rw [h]; simp only [List.append_assoc]⟩
+    | inr h => exact mem_pdbMultiAux key l ls (i + 1) h
+
+theorem mem_pdbMulti (key l : Line) (ls : List Line) (h : l ∈ pdbMulti key ls) : ∃ r, l = key ++ r := by
+  cases ls with
+  | nil => simp [pdbMulti] at h
+  | cons x ls =>
+    simp only [pdbMulti, List.mem_cons] at h
+    cases h with
+    | inl h => exact ⟨List.replicate (10 - key.length) ' ' ++ x, by rw [h]; simp only [ljust, List.append_assoc]⟩
+    | inr h => exact mem_pdbMultiAux key l ls 0 h
+
+/-- the TITLE and COMPND records of a written frame -/
+def pdbHeader (o : PdbObj α β) : List Line :=
+  pdbMulti pTITLE (splitNl (titleOr o.title))
+    ++ (match o.compnd with | none => [] | some c => pdbMulti pCOMPND (splitNl c))
+
+theorem pdbDumpOne_split (o : PdbObj α β) :
+    pdbDumpOne fa fb o = pdbHeader o ++ ((o.atoms.map (fun a => pATOM ++ [' ', ' '] ++ fa a)
+      ++ o.conects.map (fun b => pCONECT ++ fb b)) ++ [pEND]) := by
+  obtain ⟨t, c, a, b⟩ := o
+  cases c <;> simp [pdbDumpOne, pdbHeader]
+
+theorem pdbHeader_mem (o : PdbObj α β) (l : Line) (h : l ∈ pdbHeader o) :
+    (∃ r, l = pTITLE ++ r) ∨ (∃ r, l = pCOMPND ++ r) := by
+  obtain ⟨t, c, a, b⟩ := o
+  simp only [pdbHeader, List.mem_append] at h
+  cases h with
+  | inl h => exact Or.inl (mem_pdbMulti _ _ _ h)
+  | inr h =>
+    cases c with
+    | none => simp at h
+    | some c => exact Or.inr (mem_pdbMulti _ _ _ h)
+
+/-- a written frame cut inside its TITLE/COMPND records: no atom record of it is in the file -/
+theorem pdb_cut_header (o : PdbObj α β) (m : Nat) (hm : m ≤ (pdbHeader o).length) (ln : Int) :
+    ∃ ln', pdbLoadOne pa pb ⟨(pdbDumpOne fa fb o).take m, ln⟩ = .raise .loadError ⟨[], ln'⟩ := by
+  rw [pdbDumpOne_split, List.take_append_of_le_length hm]
+  apply pdbGo_no_atoms
+  intro l hl
+  rcases pdbHeader_mem o l (List.mem_of_mem_take hl) with ⟨r, rfl⟩ | ⟨r, rfl⟩ <;>
+    simp [startsWith, pTITLE, pCOMPND, pATOM, pHETATM, pCONECT, List.isPrefixOf]
+
+/-- a written frame cut after at least one ATOM record and before its END record: `load_one` returns what was
+    read with `endReached = false`, i.e. with the LoadWarning "The END is not found" -/
+theorem pdb_cut_partial (ha : ∀ a, pa (pATOM ++ [' ', ' '] ++ fa a) = some a)
+    (hb : ∀ b, pb (pCONECT ++ fb b) = some b) (o : PdbObj α β) (hat : o.atoms ≠ []) (m : Nat)
+    (hlo : (pdbHeader o).length < m) (hm : m < (pdbDumpOne fa fb o).length) (ln : Int) :
+    ∃ g ln', pdbLoadOne pa pb ⟨(pdbDumpOne fa fb o).take m, ln⟩ = .ok g ⟨[], ln'⟩ ∧ g.endReached = false := by
+  rw [pdbDumpOne_split] at hm ⊢
+  rw [← List.append_assoc] at hm ⊢
+  rw [List.take_append_of_le_length (by simp at hm ⊢; omega)]
+  have hgood : ∀ l ∈ (pdbHeader o ++ (o.atoms.map (fun a => pATOM ++ [' ', ' '] ++ fa a)
+      ++ o.conects.map (fun b => pCONECT ++ fb b))).take m,
+      startsWith pEND l = false ∧ (pdbIsAtom l = true → (pa l).isSome = true) ∧
+        (startsWith pCONECT l = true → (pb l).isSome = true) := by
+    intro l hl
+    have hl' := List.mem_of_mem_take hl
+    simp only [List.mem_append, List.mem_map] at hl'
+    rcases hl' with hh | ⟨a, _, rfl⟩ | ⟨b, _, rfl⟩
+    · rcases pdbHeader_mem o l hh with ⟨r, rfl⟩ | ⟨r, rfl⟩ <;>
+        simp [startsWith, pdbIsAtom, pTITLE, pCOMPND, pATOM, pHETATM, pCONECT, pEND, List.isPrefixOf]
+    · refine ⟨by simp [startsWith, pATOM, pEND, List.isPrefixOf], fun _ => by rw [ha]; rfl, fun h => ?_⟩
+      simp [startsWith, pATOM, pCONECT, List.isPrefixOf] at h
+    · refine ⟨by simp [startsWith, pCONECT, pEND, List.isPrefixOf], fun h => ?_, fun _ => by rw [hb]; rfl⟩
+      simp [startsWith, pdbIsAtom, pATOM, pHETATM, pCONECT, List.isPrefixOf] at h
+  have hany : ((pdbHeader o ++ (o.atoms.map (fun a => pATOM ++ [' ', ' '] ++ fa a)
+      ++ o.conects.map (fun b => pCONECT ++ fb b))).take m).any pdbIsAtom = true := by
+    obtain ⟨a0, as, hatoms⟩ : ∃ a0 as, o.atoms = a0 :: as := by
+      cases h : o.atoms with
+      | nil => exact absurd h hat
+      | cons a0 as => exact ⟨a0, as, rfl⟩
+    obtain ⟨k, rfl⟩ : ∃ k, m = (pdbHeader o).length + (k + 1) := ⟨m - (pdbHeader o).length - 1, by omega⟩
+    rw [List.any_eq_true]
+    refine ⟨pATOM ++ [' ', ' '] ++ fa a0, ?_, by simp [pdbIsAtom, startsWith, pATOM, List.isPrefixOf]⟩
+    rw [List.take_append, List.take_of_length_le (by omega), hatoms]
+    simp
+  have := (pdbGo_no_end pa pb _ hgood ln ⟨[], [], [], [], false⟩ false).1 (by rw [hany]; rfl)
+  exact this
 
 end pdb
 
